@@ -22,12 +22,17 @@ RULE = ('programs of 2-10 statements over host-supplied nested lists/dicts/tuple
         'chained up to 4 deep, inside lambda bodies (ast_names) and at top level, interleaved with mutations (push/pop/insert/remove/index write/del) through either side. '
         'Non-trivial = an assignment of a value containing at least one mutable container was checked by I1/I2; distinct = distinct program text.')
 RULE += ' Right-hand sides also apply - * / ** and unary minus to containers, and host values contain members that cannot be deep-copied (a lock, a generator) next to nested lists.'
+RULE += ' Host values also include an OrderedDict, a defaultdict, a list subclass and a list nested 700 levels deep (deeper than copy.deepcopy can recurse).'
 ASSUMPTIONS = ['internal aliasing inside one stored value is legitimate; the invariant is about objects shared with the outside',
                'for compound forms the independent copy is that of the operand (the target list itself is extended in place by design)',
                'push/insert are not assignments (they store the same object) and are not judged here']
 FINDINGS = {}
 CASE_DEADLINE = 20
 D = Decimal
+
+
+class HostList(list):
+    """a host container that is a list without being exactly `list`"""
 
 
 def hostnames():
@@ -37,18 +42,25 @@ def hostnames():
     ht = [(D(1), [D(9)]), (D(2), {'q': [D(0)]})]
     import threading
     hw = {'lock': threading.Lock(), 'rows': [[D(1)], [D(2)]], 'gen': (i for i in range(3))}      # a host value with members deepcopy cannot handle
-    return {'hl': hl, 'hd': hd, 'ht': ht, 'hw': hw, 'hwl': [hl[0], threading.Lock()], 'el': [], 'ed': {}, 'hm': lambda f, n: [f(i) for i in range(int(n))], 'hid': lambda v: v, 'num': D(3), 's': 'txt'}
+    import collections
+    deep = [D(1)]
+    for _ in range(700):
+        deep = [deep]            # nested deeper than copy.deepcopy can recurse: binding it may fail, it may not silently become a shared reference
+    more = {'hod': collections.OrderedDict([('k', [D(1), [D(2)]]), ('j', {'z': [D(3)]})]), 'hdd': collections.defaultdict(list, {'k': [D(4), [D(5)]]}),
+            'hsl': HostList([[D(6)], [D(7), [D(8)]]]), 'hdeep': deep}
+    return {**more, 'hl': hl, 'hd': hd, 'ht': ht, 'hw': hw, 'hwl': [hl[0], threading.Lock()], 'el': [], 'ed': {}, 'hm': lambda f, n: [f(i) for i in range(int(n))], 'hid': lambda v: v, 'num': D(3), 's': 'txt'}
 
 
-LISTS = ['hl', 'hl[0]', 'hd["k"]', 'a', 'b', 'c', 'el']
-DICTS = ['hd', 'hd["j"]', 'hl[2]', 'da', 'ed']
+LISTS = ['hl', 'hl[0]', 'hd["k"]', 'a', 'b', 'c', 'el', 'hsl', 'hod["k"]', 'hdd["k"]']
+DICTS = ['hd', 'hd["j"]', 'hl[2]', 'da', 'ed', 'hod', 'hdd']
 RHS = ['hl', 'hd', 'ht', 'hl[0]', 'hd["k"]', 'hd["j"]', 'hl[2]', 'a', 'b', 'c', 'da', '[hl, hl]', '[a, hl[0]]', '{"q": hl}', '{"q": hd["k"], "r": a}', 'items(hd)', 'enumerate(hl)',
        'values(hd)', 'keys(hd)', 'sorted(hl, v => str(v))', 'map(hl, v => v)', 'filter(hl, v => True)', 'get(hd, "k")', 'get(hd, "zz", hl)', 'reversed(hl)', 'hl + [hl[0]]',
        'hl[0:2]', 'hl[::-1]', 'hid(hl)', 'hm(v => hl[0], 2)', 'hid(hd)["k"]', 'ht[0]', 'ht[1][1]', 'max(hl[0], hl[1])', 'hl[0] if True else a', 'a and hl', 'el or hl', 'num', 's',
        'hl - [hl[1]]', 'hl - el', 'hl * 1', 'a - b', '(hl + hl) - [hl[0]]', 'hl / 1', 'hl ** 1', '-hl', 'hl - hl[1:]', 'hl[0] - [1]',
        'hw', 'hw["rows"]', 'hwl', '[hw, hl]', 'hid(hw)',
+       'hod', 'hdd', 'hsl', 'hod["k"]', 'hdd["k"]', 'hsl[0]', '[hod, hsl]', '{"q": hdd}', 'hid(hsl)', 'hdeep', 'hdeep[0]', '[hdeep[0][0]]', 'values(hod)', 'items(hdd)',
        '[[1], [2]]', 'list(hl, hd)', 'dict(hd)', 'hd | items | sorted', 'enumerate(ht)', 'rand(hl)', 'shuffle(hl)', 'reduce(hl, (x, y) => x)', 'x2']
-LRHS = ['hwl', 'hw["rows"]', 'hl - [hl[1]]', 'hl', 'hl[0]', 'hd["k"]', 'a', 'b', '[hl[0]]', '[hl, hd]', 'values(hd)', 'items(hd)', 'enumerate(hl)', 'map(hl, v => v)', 'hid(hl)', 'ht', '[[1]]', 'sorted(hl, v => str(v))', 'reversed(hl)']
+LRHS = ['hsl', 'hod["k"]', 'hdeep', '[hdd]', 'hwl', 'hw["rows"]', 'hl - [hl[1]]', 'hl', 'hl[0]', 'hd["k"]', 'a', 'b', '[hl[0]]', '[hl, hd]', 'values(hd)', 'items(hd)', 'enumerate(hl)', 'map(hl, v => v)', 'hid(hl)', 'ht', '[[1]]', 'sorted(hl, v => str(v))', 'reversed(hl)']
 KEY_L = ['0', '1', '-1', 'len(%s)', '2']
 KEY_D = ['"k"', '"new"', '"j"', '1', 'None']
 
@@ -232,23 +244,7 @@ class Watch:
 
 def walk_except(v, stop, seen, visiting=None):
     """mutable_ids, but do not descend into the container `stop` (its other slots were walked separately)"""
-    if v is stop:
-        seen.add(id(v))
-        return
-    t = type(v)
-    if t is list or t is tuple:
-        if t is list:
-            if id(v) in seen:
-                return
-            seen.add(id(v))
-        for x in v:
-            walk_except(x, stop, seen)
-    elif t is dict:
-        if id(v) in seen:
-            return
-        seen.add(id(v))
-        for x in v.values():
-            walk_except(x, stop, seen)
+    heap.mutable_ids(v, seen, stop=stop)
 
 
 def setup(ctx):
